@@ -461,6 +461,7 @@ pub fn main(args: &[String]) -> i32 {
     let miri_plan: Option<(&str, u64, u64, u64, u64)> = match prop.as_str() {
         "C18" => Some(("cache", 32, 6, 512, 8)),
         "C13" => Some(("lazy", 0, 0, 96, 6)), // thorough tier only
+        "C05" => Some(("io", 0, 0, 48, 8)),   // thorough tier only
         _ => None,
     };
     if let (Some((msim, qs, qc, ts, tc)), false) = (miri_plan, args.iter().any(|a| a == "--no-miri")) {
